@@ -335,27 +335,44 @@ class DefUse:
         return d[0] if len(d) == 1 else None
 
 
-def is_pass_through(callee, extra=()):
-    if not callee:
-        return False
+def trait_method(callee):
+    """`<X as path::Trait<..>>::m` -> `path::Trait::m`; other paths unchanged (turbofish stripped)."""
     c = strip_generics(callee)
-    # <T as Trait>::method  -> compare on the trait method path as well
-    if c.startswith("<") and " as " in c:
-        inner = c[c.index(" as ") + 4:]
+    if c.startswith("<"):
+        # find the top-level " as "
         depth = 0
-        for i, ch in enumerate(inner):
+        i = 1
+        as_at = None
+        end = None
+        while i < len(c):
+            ch = c[i]
             if ch == "<":
                 depth += 1
             elif ch == ">":
                 if depth == 0:
-                    trait = inner[:i]
-                    rest = inner[i + 1:]
-                    c2 = strip_generics(trait) + rest
-                    if c2 in PASS_THROUGH or c2 in extra:
-                        return True
+                    end = i
                     break
                 depth -= 1
-    return c in PASS_THROUGH or c in extra
+            elif depth == 0 and c.startswith(" as ", i) and as_at is None:
+                as_at = i
+            i += 1
+        if as_at is not None and end is not None:
+            trait = c[as_at + 4:end]
+            lt = trait.find("<")
+            if lt >= 0:
+                trait = trait[:lt]
+            return trait + c[end + 1:]
+    return c
+
+
+def is_pass_through(callee, extra=()):
+    if not callee:
+        return False
+    c = strip_generics(callee)
+    if c in PASS_THROUGH or c in extra:
+        return True
+    c2 = trait_method(callee)
+    return c2 in PASS_THROUGH or c2 in extra
 
 
 class Origin:
